@@ -159,6 +159,16 @@ class Canon:
             return "%s(%s)" % (callee, ", ".join(r(x) for x in args))
         if k == "CallExpr":
             d = P.d(n.get("callee")) if n.get("callee") else {}
+            hc = norm.helper_call(P, self.F, n) if self.inl is not None and INLINE_CONST_LOCALS and depth < 50 else None
+            if hc is not None:
+                # a single-return helper of the same source file: compare what it computes, not how it is named
+                params, body, hargs, G = hc
+                sub = Canon(P, G, alias_params=False)
+                sub.alias = dict(self.alias)
+                sub.nloc = self.nloc
+                for pk, a in zip(params, hargs):
+                    sub.alias[pk] = r(a)
+                return sub.e(body, depth + 1)
             nm = abstract(d.get("qn") or (r(c[0]) if c else "?"))
             nm = re.sub(r"^(std::)?(fabs|abs)$", "fabs", nm)
             nm = re.sub(r"^std::(exp|sqrt|sin|cos|tan|pow|erfc|floor|log)$", r"\1", nm)
